@@ -604,4 +604,6 @@ WITNESSES = [
      "old": "spki_table_search_by_ski(table, (uint8_t *)curr->ski, &tmp_key, &router_keys_len);", "new": "spki_table_search_by_ski(table, (uint8_t *)sig_segs->ski, &tmp_key, &router_keys_len);"},
     {"id": "C11.w-first-appended-segment-not-counted", "rule": "C11.R5", "file": "rtrlib/bgpsec/bgpsec.c",
      "old": "\t} else {\n\t\tbgpsec->path = new_seg;\n\t}\n\n\tbgpsec->path_len++;", "new": "\t} else {\n\t\tbgpsec->path = new_seg;\n\t\treturn;\n\t}\n\n\tbgpsec->path_len++;"},
+    {"id": "C11.w-prepend-normalises-the-flags", "rule": "C11.R5", "file": "rtrlib/bgpsec/bgpsec.c",
+     "old": "\tif (bgpsec->path)\n\t\tnew_seg->next = bgpsec->path;\n\n\tbgpsec->path = new_seg;", "new": "\tnew_seg->flags &= 0x80;\n\tif (bgpsec->path)\n\t\tnew_seg->next = bgpsec->path;\n\n\tbgpsec->path = new_seg;"},
 ]
